@@ -16,7 +16,7 @@ def case_hash(c):
 # ----------------------------------------------------------------------------
 # generic factorization case generator
 # ----------------------------------------------------------------------------
-FAMS = ['rand', 'randnd', 'band', 'arrow', 'grid', 'chain', 'star', 'forest', 'dense']
+FAMS = ['rand', 'randnd', 'band', 'arrow', 'grid', 'chain', 'star', 'forest', 'dense', 'tree', 'tree']
 
 def pick_n(rng, quick, big=False):
     if quick:
@@ -41,6 +41,8 @@ def factor_case(rng, quick, cmd='gstrf', fams=None, nmax=None, pmodes=(0, 1, 2, 
         c['lower'] = rng.choice([0, 1]); c['extra'] = rng.choice([0, 0, 0.1])
     elif fam in ('star', 'forest'):
         c['bs'] = rng.choice([1, 2, 3, 5, 8]); c['ncpl'] = rng.choice([1, 1, 2, 3])
+    elif fam == 'tree':
+        c['shape'] = rng.choice([0, 0, 1, 2, 3, 4]); c['kary'] = rng.choice([2, 3, 5, 8]); c['xanc'] = rng.choice([0, 0, 0.3])
     # values
     v = rng.random()
     if v < 0.70:
@@ -94,6 +96,9 @@ def _judge_core(ctx, prop, r):
     out = []
     c = r['case']; res = r.get('result'); m = r.get('meta', {})
     cmd = c.get('cmd', '?')
+    if r.get('deadlock'):
+        out.append(('C04|deadlock|all-workers-idle|%s' % cmd, 'the probe\'s watch thread saw a state from which the call cannot return: %s' % r['deadlock']))
+        return out
     if r.get('hang'):
         out.append(('hang|%s' % cmd, 'no return within the watchdog in two runs; stacks: %s' % (r.get('stderr') or '')[-1500:]))
         return out
@@ -209,12 +214,41 @@ EV_COUNTERS = ('panels', 'relaxed', 'pipe_takes', 'waits_blocked', 'wait_points'
 def nontrivial_factor(r):
     res = r.get('result') or {}
     c = r['case']
+    if c.get('cmd') == 'sched':
+        return res.get('model_states', 0) > 100
     if res.get('n', 0) < 4 or res.get('nsuper', 0) < 2:
         return False
     if int(c.get('np', 1)) >= 2 and res.get('thr_panels', 0) < 2:
         return False
     return True
 
+CATALAN = {1: 1, 2: 2, 3: 5, 4: 14, 5: 42, 6: 132, 7: 429, 8: 1430}
+def sched_items(ctx):
+    """Scheduler explorer cases (harness/cmd_sched.c): the library's own ParallelInit / pxgstrf_scheduler /
+    pxgstrf_mark_busy_descends executed under every interleaving of simulated workers, for every postordered forest
+    with n columns (Catalan(n) of them) x panel sizes {1,4,6} x relax {1,2,3} x 2..3 workers."""
+    items = []
+    def add(n, first, count, **kw):
+        c = {'cmd': 'sched', 'n': n, 'first': first, 'count': count}; c.update(kw)
+        items.append(({'variant': 'plain', 'prec': 'd', 'per_process': True, 'timeout_scale': kw.pop('tscale', 4.0) if 'tscale' in kw else 4.0}, c))
+    for n in (1, 2, 3, 4):
+        add(n, 0, CATALAN[n])
+    for f in range(0, CATALAN[5], 6):
+        add(5, f, 6)
+    if not ctx.quick:
+        for f in range(0, CATALAN[6], 4):
+            add(6, f, 4, hbits=24)
+        for f in range(0, CATALAN[7]):
+            add(7, f, 1, hbits=26)
+        # n = 8: every 24th forest, each configuration bounded to 4M states (bound reported as model_truncated_configs)
+        for f in range(0, CATALAN[8], 24):
+            add(8, f, 1, hbits=26, cap=4000000)
+    return items
+
+MODEL_COUNTERS = ('model_forests', 'model_configs', 'model_states', 'model_transitions', 'model_takes', 'model_pipe_takes', 'model_truncated_configs')
+RULE_SCHED = ('; scheduler explorer: every interleaving of worker actions (scheduler call, wait point passed, column released joining or starting a '
+              'supernode, panel finished, exit) on the library\'s own scheduler code and data, states memoised by a 64-bit hash, for all postordered forests '
+              'with n<=5 columns (quick) / n<=7 and a sample of n=8 (thorough) x w in {1,4,6} x relax in {1,2,3} x 2..3 workers')
 RULE_FACTOR = ('cases are drawn from seeded generators (family, n, density/shape, values, scaling, ordering, nprocs, w/relax/maxsuper/'
                'rowblk/colblk, perturbation mode+seed); distinct = sha1 of all case parameters; non-trivial = n>=4, >=2 supernodes and, '
                'when nprocs>=2, panels were factored by at least two different threads according to the event log')
@@ -327,13 +361,14 @@ def gen_c03(ctx):
         c['n'] = max(c['n'], 8)
         c['w'] = rng.choice([1, 2, 3, 4]); c['relax'] = rng.choice([1, 2, 3, 4]); c['maxsup'] = max(c['maxsup'], c['relax'])
         items.append(({'variant': 'plain', 'prec': pv[i]}, c))
+    items += sched_items(ctx)
     return items
 
-PROPS['C03'] = dict(gen=gen_c03, relevant=('C03|', 'race|', 'C02|reconstruction'), counters=EV_COUNTERS, nontrivial=nontrivial_factor, batch=25,
+PROPS['C03'] = dict(gen=gen_c03, relevant=('C03|', 'race|', 'C02|reconstruction'), counters=EV_COUNTERS + MODEL_COUNTERS, nontrivial=nontrivial_factor, batch=25,
                     rule=RULE_FACTOR + '; monitors: (1) gcc ThreadSanitizer with the happens-before annotations of the flag protocol, one factorization per process; '
                     '(2) offline checker over the merged event log: reads of a supernode only after every column was released, no interchange / pruning '
-                    'of rows being read, each update applied once, scheduler children rule and wait path; (3) numerical consequence via the C02 reconstruction',
-                    floors={'pipe_takes': 2000, 'waits_blocked': 500, 'busy_upd': 2000, 'prunes': 500},
+                    'of rows being read, each update applied once, scheduler children rule and wait path; (3) numerical consequence via the C02 reconstruction' + RULE_SCHED,
+                    floors={'pipe_takes': 2000, 'waits_blocked': 500, 'busy_upd': 2000, 'prunes': 500, 'model_states': 1000000},
                     assumptions=['TSan is told that spin_locks/pan_status/ispruned/xprune/perm_r/tasks_remain/usepr/nextu are synchronisation flags (see DESIGN 3.1)',
                                  'x86-64 TSO host: weak-memory reorderings of the flag protocol are out of reach'])
 
@@ -350,13 +385,24 @@ def gen_c04(ctx):
             drv_extras(rng, c)
         if rng.random() < 0.15 and c['n'] >= 3 and c['fam'] in ('rand', 'band', 'grid', 'arrow'):
             c['zerocol'] = rng.randrange(c['n']); c['expect_singular'] = 1
+        c['watch'] = 1
         items.append(({'variant': 'plain', 'prec': pv[i]}, c))
+    # many sibling panels that finish at the same moment under one parent, queue empty: lost wake-ups show here
+    NS = 1200 if ctx.quick else 20000
+    pv = spread(rng, NS)
+    for i in range(NS):
+        c = {'cmd': 'gstrf', 'fam': 'tree', 'shape': rng.choice([0, 1, 1, 2, 3, 4]), 'kary': rng.choice([2, 3, 5, 8]), 'n': rng.choice([16, 32, 64, 100]), 'seed': rng.randrange(1, 1 << 30), 'vals': 'generic',
+             'np': rng.choice([2, 4, 8, 8, 16]), 'ord': 0, 'w': rng.choice([1, 1, 2]), 'relax': 1, 'maxsup': 8, 'rowblk': 200, 'colblk': 100, 'oracle': 0, 'watch': 1,
+             'pmode': rng.choice([0, 0, 0, 1]), 'pert': rng.randrange(1, 1 << 30), 'reps': 40 if ctx.quick else 100}
+        items.append(({'variant': 'plain', 'prec': pv[i]}, c))
+    items += sched_items(ctx)
     return items
 
-PROPS['C04'] = dict(gen=gen_c04, relevant=('C04|',), counters=EV_COUNTERS, nontrivial=nontrivial_factor, batch=25,
+PROPS['C04'] = dict(gen=gen_c04, relevant=('C04|', 'C03|taken-before-children-done', 'C03|chain-not-busy'), counters=EV_COUNTERS + MODEL_COUNTERS, nontrivial=nontrivial_factor, batch=25,
                     rule=RULE_FACTOR + '; oracle: wall-clock watchdog (two time-outs = hang), exactly-once counters per column and per panel from the event log, '
-                    'tasks_remain snapshots taken under the scheduler lock, queue indices, /proc/self/task before and after',
-                    floors={'pipe_takes': 1000, 'sched_none': 100},
+                    'tasks_remain snapshots taken under the scheduler lock, queue indices, /proc/self/task before and after; in-process watch thread: all nprocs workers '
+                    'polling an empty scheduler with none holding a panel = lost wake-up (logical condition, no deadline)' + RULE_SCHED,
+                    floors={'pipe_takes': 1000, 'sched_none': 100, 'model_states': 1000000},
                     assumptions=['"eventually returns" is decided as "returned within a 60 s watchdog on every executed schedule"'])
 
 # ---- C05 ----
@@ -449,6 +495,11 @@ def gen_c09(ctx):
     for i in range(N):
         cmd = rng.choice(['gstrf', 'gssv'])
         c = factor_case(rng, ctx.quick, cmd, pmodes=(4, 4, 1, 0), nps=[1, 2, 3, 4, 8, 16])
+        if i % 3 == 0:
+            # a forest of a few independent blocks: few supernodes, numbered by whichever thread comes first
+            c['fam'] = 'blockdiag'; c['n'] = rng.choice([6, 9, 12, 15, 20, 30]); c['bs'] = rng.choice([2, 3, 6]); c['np'] = rng.choice([2, 3, 4]); c['pmode'] = 4
+            c['pert'] = rng.randrange(1, 1 << 30); c['relax'] = rng.choice([1, 2, 8]); c['maxsup'] = max(c['relax'], c.get('maxsup', 8)); c['plevel'] = rng.choice([1, 2, 3])
+            for k2 in ('dens', 'bl', 'bu', 'orient', 'lower', 'extra', 'ncpl'): c.pop(k2, None)
         if cmd == 'gssv':
             drv_extras(rng, c)
         c['oracle'] = 0 if rng.random() < 0.5 else 1
@@ -574,17 +625,22 @@ PROPS['C13'] = dict(gen=gen_c13, relevant=('C13|', 'C07|backward-error'), counte
                     floors={'nrhs': 1000})
 
 # ---- C06 ----
-def sing_case(rng, prec, quick, drv):
+def sing_case(rng, prec, quick, drv, kind=None):
     n = rng.choice([2, 3, 4, 6, 9, 12, 16, 24, 36, 50])
     c = {'cmd': drv, 'seed': rng.randrange(1, 1 << 30), 'n': n, 'vals': 'generic'}
     c['fam'] = rng.choice(['band', 'grid', 'arrow', 'star', 'forest', 'chain', 'rand'])
     if c['fam'] == 'rand': c['dens'] = round(min(1.0, rng.choice([2.5, 4]) / n), 4); c['fam'] = 'band' if n < 4 else 'rand'
     if c['fam'] in ('star', 'forest'): c['bs'] = rng.choice([2, 3]); c['ncpl'] = 1
-    kind = rng.choice(['zerocol', 'zerocol', 'zerocol', 'zerorow', 'zerorow', 'onesblock', 'onesblock', 'onesblock', 'emptycol', 'emptyrow', 'hallblock', 'hall'])
+    kind = kind or rng.choice(['zerocol', 'zerocol', 'zerocols', 'zerocols', 'zerocols', 'zerorow', 'zerorow', 'onesblock', 'onesblock', 'onesblock', 'emptycol', 'emptyrow', 'hallblock', 'hall'])
     if c['fam'] == 'rand' and kind in ('hallblock', 'onesblock'):
         c['fam'] = 'band'        # the rest of the matrix must keep a full diagonal
     c['kind'] = kind
-    if kind in ('zerocol', 'zerorow', 'emptycol', 'emptyrow'):
+    if kind == 'zerocols':
+        c['zerocols'] = rng.choice([2, 3, 4, 6]); c['expect_singular'] = 1
+        c['n'] = n = rng.choice([12, 24, 36, 50, 80, 120]); c['fam'] = rng.choice(['forest', 'star', 'blockdiag', 'grid', 'band'])
+        if c['fam'] in ('star', 'forest', 'blockdiag'): c['bs'] = rng.choice([2, 3, 5]); c['ncpl'] = 1
+        c.pop('dens', None)
+    elif kind in ('zerocol', 'zerorow', 'emptycol', 'emptyrow'):
         c[kind] = rng.randrange(n); c['expect_singular'] = 1
     elif kind == 'hallblock':
         c['hallblock'] = rng.randrange(2, max(3, min(n, 6) + 1)) if n > 2 else 2; c['expect_singular'] = 1; c['generic_singular'] = 1
@@ -596,18 +652,28 @@ def sing_case(rng, prec, quick, drv):
         c['generic_singular'] = 1
     c['np'] = rng.choice([1, 2, 3, 4, 8]); c['ord'] = rng.choice([0, 1, 2, 3])
     c['w'] = rng.choice([1, 2, 3, 8]); c['relax'] = rng.choice([1, 2, 4, 8]); c['maxsup'] = max(c['relax'], rng.choice([4, 8, 24]))
+    if kind == 'zerocols':
+        c['np'] = rng.choice([2, 3, 4, 8]); c['relax'] = rng.choice([1, 1, 2]); c['w'] = rng.choice([1, 2, 3]); c['maxsup'] = max(c['relax'], 8)
     c['rowblk'] = rng.choice([2, 200]); c['colblk'] = rng.choice([2, 100])
     c['nrhs'] = rng.choice([1, 2]); c['stype'] = rng.choice(['nc', 'nr'])
     if drv == 'gssvx':
         c['trans'] = rng.choice([0, 1, 2]); c['equil'] = rng.choice([0, 1])
         if rng.random() < 0.3: c['rscale'] = 10
-    if c['np'] > 1: c['pmode'] = rng.choice([0, 1, 2]); c['pert'] = rng.randrange(1, 1 << 30)
+    if c['np'] > 1: c['pmode'] = rng.choice([0, 1, 2, 5]); c['pert'] = rng.randrange(1, 1 << 30)
     return c
 
 def gen_c06(ctx):
     rng = ctx.rng
     N = 1600 if ctx.quick else 25000
     out = []
+    # several exactly-zero columns in different branches of the elimination tree: the FIRST one must be reported
+    # whichever thread meets which one first (needs many executions per precision: a thread has to run into a later
+    # singular column before an earlier one)
+    NZ = 1600 if ctx.quick else 20000
+    for i in range(NZ):
+        prec = PRECS[i % 4]
+        c = sing_case(rng, prec, ctx.quick, rng.choice(['gssv', 'gssvx']), kind='zerocols')
+        out.append(({'variant': 'plain', 'prec': prec}, c))
     for i in range(N):
         prec = rng.choice(PRECS)
         c = sing_case(rng, prec, ctx.quick, rng.choice(['gssv', 'gssvx']))
@@ -864,7 +930,8 @@ def gen_c08(ctx):
         c = hist_base(rng, ctx.quick)
         c['ops'] = rand_ops(rng, rng.choice([2, 3, 4, 4]) if ctx.quick else rng.choice([3, 5, 8, 10]))
         c['nps'] = ','.join(str(rng.choice([1, 2, 4, 8])) for _ in range(4))
-        c['u'] = rng.choice([1.0, 0.5, 0.1])
+        c['u'] = rng.choice([1.0, 0.5, 0.1, 0.0])
+        if rng.random() < 0.35: c['zeropiv'] = rng.choice([1, 2, 3])
         c['mem'] = rng.choice([0, 0, 1])
         if c['mem']: c['lwfrac'] = 1.6
         if rng.random() < 0.5: c['pmode'] = rng.choice([1, 2]); c['pert'] = rng.randrange(1, 1 << 30)
